@@ -253,6 +253,26 @@ def main(prop, tier, seed, replay_path=None):
                         sessions.append((deepc[j['ci'] - 1] if j['ci'] else None, h))
             mc['distinct'] += mcB['distinct']
             mc['generated'] += mcB['generated']
+        # rename / move followed by remove / rename / move (depth 2): a structure that was renamed or moved is edited again
+        small = [c for c in charts if c['n'] <= 4][:6 if quick else 40]
+        if small:
+            dD = tlc.workdir('C16_model_again')
+            with open(os.path.join(dD, 'ChartsData.tla'), 'w') as f:
+                f.write(gc.tla_charts_module('ChartsData', small))
+            tlc.write_mc(dD, 'ModelMC', dict(consts, MaxLen=2, Ops={'rename_state', 'remove_state', 'move_state'}), view='View',
+                         constraints=['Bounded'], action_constraints=['Emit'], invariants=['InvSound'],
+                         props=['FailedUnchanged'])
+            mcD = tlc.run(dD, timeout=3000)
+            if mcD['error'] or mcD['violated']:
+                print('MACHINERY-FAILURE property=C16: design check (edit-again stage) failed\n' + (mcD['error'] or mcD['out'][-2000:]))
+                return 2
+            for j in mcD['json']:
+                if 'hist' in j:
+                    h = j['hist'] if isinstance(j['hist'], list) else []
+                    if len(h) == 2:
+                        sessions.append((small[j['ci'] - 1] if j['ci'] else None, h))
+            mc['distinct'] += mcD['distinct']
+            mc['generated'] += mcD['generated']
         # third exhaustive stage: every sequence of three move_state calls on 4-state structures
         pool5 = [c for c in gc.family_f1(5) if c['n'] == 5 and all(k in ('compound', 'basic') for k in c['kind'])
                  and c['parent'].count(1) >= 3]
